@@ -156,6 +156,10 @@ func c16Run(c *Ctx) {
 			o.DefaultMask = ""
 			continue
 		}
+		if o.DefaultMask == "" && o.T.K == KString && o.T.W == WScalar && len(o.Choices) == 0 && r.Chance(1, 12) {
+			// a real default that is spelled like the "show nothing" mask: it is a default, not a mask
+			o.Defaults = []string{"-"}
+		}
 		if o.DefaultMask != "" {
 			switch {
 			case o.T.K == KString && o.T.W != WMap && len(o.Choices) == 0:
